@@ -88,13 +88,24 @@ class Result:
         self.oracle_checks = 0
         self.samples = []
         self.distribution = {}
-        self.sigs = set()
+        self.sigs = set()          # distinct non-trivial units (render steps, pumped inputs, ...) as the property's rule defines them
+        self.case_sigs = set()     # distinct cases that contributed at least one new non-trivial unit
         self.search_summary = None
         self.leads = []
 
     @property
     def distinct_nontrivial(self):
+        """Counted in the unit of `evaluations` (cases): a case is counted when it is distinct from every earlier case and
+        at least one of its steps is non-trivial by the property's rule and was not seen in an earlier case."""
+        return len(self.case_sigs)
+
+    @property
+    def distinct_nontrivial_units(self):
         return len(self.sigs)
+
+    def executed(self, case, before):
+        if len(self.sigs) > before:
+            self.case_sigs.add(hashlib.sha1(repr(case).encode()).hexdigest()[:16])
 
     def count(self, key, n=1):
         self.distribution[key] = self.distribution.get(key, 0) + n
@@ -225,10 +236,12 @@ def run_property(prop, ctx, broken=False):
         res.evaluations += 1
         if len(res.samples) < 5 and res.evaluations % 7 == 1:
             res.samples.append(case)
+        before = len(res.sigs)
         try:
             prop.execute(case, ctx, res)
         except ModelError as e:
             res.disagreement(case, None, 'model driver failure: %s' % e, 'driver')
+        res.executed(case, before)
 
     known = load_known_findings()
 
@@ -320,7 +333,9 @@ def run_property(prop, ctx, broken=False):
                 break
             tried += 1
             res.evaluations += 1
+            before = len(res.sigs)
             prop.execute(case, ctx, res)
+            res.executed(case, before)
             if fresh_violations():
                 break
         for _ in range(m):
@@ -334,7 +349,9 @@ def run_property(prop, ctx, broken=False):
                 break
             tried += 1
             res.evaluations += 1
+            before = len(res.sigs)
             prop.execute(case, ctx, res)
+            res.executed(case, before)
             if fresh_violations():
                 break
         ctx.model_ok = saved
